@@ -66,7 +66,9 @@ class IntervalSegmenter(_PanelToPanelTransformer):
                 raise ValueError(
                     "The number of intervals must be half the number of time points"
                 )
-            self.intervals_ = np.array_split(self._time_index, self.intervals)
+            # store [start, end) pairs, the format `transform` slices with
+            splits = np.array_split(self._time_index, self.intervals)
+            self.intervals_ = [np.array([split[0], split[-1] + 1]) for split in splits]
 
         else:
             raise ValueError(
